@@ -160,7 +160,8 @@ impl<F: Field> Assignment<F> for Assembly<F> {
         from_row: usize,
         to: Value<Rational<F>>,
     ) -> Result<(), Error> {
-        if !self.usable_rows.contains(&from_row) {
+        // `from_row == usable_rows.end`: the column is full already, nothing is left to fill.
+        if from_row > self.usable_rows.end {
             return Err(Error::not_enough_rows_available(self.k));
         }
 
